@@ -66,8 +66,13 @@ def complete_returns(rec):
         else:
             e["kkt"] = {"boundsExact": True, "rows": [], "vars": []}
         just = {"violGt": True, "infStat": True, "feas": True, "objLe": True}
-        if e["status"] in ("LocallyInfeasible", "Unbounded") and xfrom and not getattr(rec, "scripted", False):
-            xi, yi = rec.pts.arrays[xfrom[0]]
+        if e["status"] in ("LocallyInfeasible", "Unbounded") and not getattr(rec, "scripted", False):
+            if xfrom:
+                xi, yi = rec.pts.arrays[xfrom[0]]
+            else:
+                # no recorded internal iterate restores to the returned point (e.g. the solver's internal problem has another
+                # shape than the reformulation of the statement): judge the returned point itself, slacks placed by the oracle
+                xi, yi = oracle.transform_start(prob, scal, par, np.asarray(x, dtype=float), np.asarray(y, dtype=float))
             just = oracle.justify(prob, scal, par, xi, yi)
         e["just"] = just
 
